@@ -34,13 +34,14 @@ RULE = ("shortest_int: multisets over small alphabets (heavy ties), dyadic grids
         "(>= 10^4 so that 99.99% excludes outliers), n in 1..12, both otype values, ndarray and electrical_signal input, containers "
         "with a separate noise array (0.3x..3x the signal swing; clauses evaluated on signal+noise), quantised records stored as "
         "int8/int16/int32/uint8/uint16, both within and beyond the span the dtype's own arithmetic can hold (full-range records, "
-        "unsigned records with samples below V_min). "
+        "unsigned records with samples below V_min), amplitude regimes 1e-15..1e12 of every record kind (all float tolerances are "
+        "relative to the full-scale span). "
         "non-trivial = accepted call; distinct by (kind, data digest, p | n, otype)")
 PARTIAL = [
     "the float evaluation of lag = int(len*percent/100) is tied to floor(n*p/100) by the differential run only (p is read as the "
     "decimal value of its repr, as the translator reads 99.99)",
     "float rounding of (s-V_min)/(V_max-V_min)*(2^n-1) and of the 'v' levels: codes are compared exactly on dyadic records and up "
-    "to a half-step tie (|frac-1/2| < 1e-9) on general records; 'v' levels at 1e-9*scale+1e-12",
+    "to a half-step tie (|frac-1/2| < 1e-9) on general records; 'v' levels at 1e-9*span + 8 ulp of the magnitude (no absolute floor)",
     "fs != None (scipy resample) is not modelled; V_max = V_min (0/0 -> nan) is an excluded point (feature degenerate-range)",
 ]
 ASSUMPTIONS = [
@@ -101,7 +102,7 @@ def safe_p(n, p):
 def make_record(spec):
     """deterministic record from a JSON spec (so that long records need not be stored in the case)"""
     if "data" in spec:
-        return [float(v) for v in spec["data"]]
+        return [float(v) * spec.get("scale", 1.0) for v in spec["data"]]
     r = random.Random(spec["seed"])
     N, dist = spec["N"], spec["dist"]
     if dist == "gauss":
@@ -144,7 +145,8 @@ def make_record(spec):
         raise ValueError(dist)
     for i, v in spec.get("outliers", []):
         xs[i % N] = v
-    return [float(v) for v in xs]
+    k = spec.get("scale", 1.0)          # amplitude regime: the whole record (outliers included) times a factor
+    return [float(v) * k for v in xs]
 
 
 INT_DTYPES = {"int8": (-128, 127), "int16": (-32768, 32767), "int32": (-2 ** 31, 2 ** 31 - 1), "uint8": (0, 255),
@@ -276,6 +278,24 @@ def gen_cases(rng, tier):
             exact = False
         cases.append({"kind": "adc", "spec": spec, "n": nb, "otype": ot, "exact": exact,
                       "input": rng.choice(["ndarray", "electrical_signal"])})
+    # directed: amplitude regimes - the existing record kinds times 1e-15 ... 1e12 (an ADC is scale-free)
+    SCALES = [1e-15, 1e-12, 1e-11, 2e-10, 1e-9, 1e-8, 1e-6, 1e-3, 1e3, 1e6, 1e9, 1e12]
+    kinds = ["gauss", "uniform", "sine", "quantised"]
+    j = 0
+    for sc in SCALES:
+        for kind in (kinds if thorough else [kinds[(j + i) % 4] for i in range(2)]):
+            for ot in ["n", "v"]:
+                j += 1
+                N = rng.choice([50, 300, 1000, 3000]) if j % 8 else 10000
+                spec = {"dist": kind, "N": N, "seed": rng.getrandbits(32), "sigma": 1.0, "mu": rng.choice([0.0, 0.3]),
+                        "a": -1.0, "b": 1.0, "amp": 1.0, "off": rng.choice([0.0, 0.5]), "cycles": rng.uniform(3, 60),
+                        "levels": rng.randint(2, 16), "step": 0.25, "scale": sc}
+                case = {"kind": "adc", "spec": spec, "n": rng.choice([1, 3, 8, 12]), "otype": ot, "exact": False,
+                        "input": ["ndarray", "electrical_signal"][j % 2], "directed": "amplitude-regime"}
+                if j % 6 == 0:
+                    case["noise"] = {"dist": "gauss", "N": N, "seed": rng.getrandbits(32), "mu": 0.0, "sigma": 0.5, "scale": sc}
+                    case["input"] = "electrical_signal"
+                cases.append(case)
     # directed: containers carrying a separate noise array comparable to / larger than the signal swing
     for j in range(16 if not thorough else 120):
         N = rng.choice([64, 500, 4096, 9999, 10000, 20000]) if j % 4 else rng.choice([10000, 12345, 20000])
@@ -428,8 +448,17 @@ def model_requests(case, res):
     return [f"quant.adc {case['n']} {ot} {len(xs)} " + " ".join(enc_rat(Fraction(v)) for v in xs)]
 
 
-def _close(a, b, scale):
-    return abs(a - b) <= 1e-9 * scale + 1e-12
+EPS64 = 2.0 ** -52
+
+
+def _tol(span, mag):
+    """tolerance of a float clause: 1e-9 of the full-scale span plus the rounding of values of magnitude `mag`
+    (8 ulp); nothing absolute"""
+    return 1e-9 * span + 8 * EPS64 * mag
+
+
+def _finite(*xs):
+    return all(isinstance(x, (int, float)) and math.isfinite(x) for x in xs)
 
 
 def compare(case, res, reqs, replies):
@@ -446,7 +475,7 @@ def compare(case, res, reqs, replies):
         if t[0] != "ok":
             return [f"model says {rep[:100]!r}, implementation ({res['lo']!r},{res['hi']!r})"]
         lo, hi = Fraction(t[1]), Fraction(t[2])
-        if lo != Fraction(res["lo"]) or hi != Fraction(res["hi"]):
+        if not _finite(res["lo"], res["hi"]) or lo != Fraction(res["lo"]) or hi != Fraction(res["hi"]):
             return [f"model ({float(lo)!r},{float(hi)!r}), implementation ({res['lo']!r},{res['hi']!r})"]
         return []
     # ADC
@@ -455,6 +484,8 @@ def compare(case, res, reqs, replies):
         return [] if rep == want else [f"model says {rep[:100]!r}, implementation {want!r}"]
     if res["status"] != "ok":
         return [f"implementation: {res}"]
+    if res["vmin"] is not None and not _finite(res["vmin"], res["vmax"]):
+        return [f"range estimate not finite: ({res['vmin']!r},{res['vmax']!r}); model says {rep[:60]!r}"]
     if res["vmin"] is not None and res["vmin"] == res["vmax"]:
         return [] if rep == "err Other" else [f"degenerate range: model says {rep[:80]!r}"]     # excluded point
     t = rep.split()
@@ -473,10 +504,13 @@ def compare(case, res, reqs, replies):
     for i in range(n):
         m = Fraction(vals[i])
         o = res["out"][i]
+        if not _finite(o):
+            bad.append(f"sample {i}: model {float(m)!r}, implementation {o!r} (not finite)")
+            break
         if case["otype"] == "n":
             ok = (m == Fraction(o))
         else:
-            ok = _close(float(m), o, max(abs(float(vmin)), abs(float(vmax))))
+            ok = abs(float(m) - o) <= _tol(float(vmax - vmin), max(abs(float(vmin)), abs(float(vmax))))
         if not ok and not case["exact"]:
             # a half-step tie decided differently by float rounding of (s-Vmin)/(Vmax-Vmin)*(2^n-1)?
             if xs is None:
@@ -499,6 +533,8 @@ def compare(case, res, reqs, replies):
 def _sint_oracle(data, p, lo, hi, tag):
     """the statement of shortest_int on exact rationals; returns list of (sig, msg)"""
     v = []
+    if not _finite(lo, hi):
+        return [(f"C18:{tag}:non-finite", f"returned ({lo!r},{hi!r})")]
     s = sorted(Fraction(float(x)) for x in data)
     n = len(s)
     lo, hi = Fraction(lo), Fraction(hi)
@@ -517,10 +553,10 @@ def _sint_oracle(data, p, lo, hi, tag):
                       f"({float(lo)!r},{float(hi)!r}) are not two order statistics {lag} apart (n={n}, p={p!r})"))
         else:
             inside = sum(1 for x in s if lo <= x <= hi)
-            if inside < lag + 1:
+            if not inside >= lag + 1:
                 w.append((f"C18:{tag}:covers", f"[{float(lo)!r},{float(hi)!r}] holds {inside} samples, lag+1 = {lag + 1}"))
             best = min(s[j + lag] - s[j] for j in range(n - lag))
-            if (hi - lo) - best >= slack:
+            if not (hi - lo) - best < slack:
                 j = min(range(n - lag), key=lambda j: s[j + lag] - s[j])
                 w.append((f"C18:{tag}:minimal", f"width {float(hi - lo)!r} but order statistics {j},{j + lag} "
                                                  f"({float(s[j])!r},{float(s[j + lag])!r}) are {float(best)!r} apart (n={n}, lag={lag})"))
@@ -568,12 +604,16 @@ def oracle(case, res):
     if vmax == vmin:
         return v                # excluded point: constant record, no full-scale range
     top = 2 ** nb - 1
-    if len(set(out)) > 2 ** nb:
+    if not _finite(*out):
+        k0 = next(i for i, o in enumerate(out) if not _finite(o))
+        v.append(("C18:ADC:non-finite", f"sample {k0} ({xs[k0]!r}) -> {out[k0]!r} although V_min={vmin!r} < V_max={vmax!r}"))
+        return v
+    if not len(set(out)) <= 2 ** nb:
         v.append(("C18:ADC:levels", f"{len(set(out))} distinct output values for n={nb}"))
     Vmin, Vmax = Fraction(vmin), Fraction(vmax)
     step = (Vmax - Vmin) / top
-    scale = max(abs(vmin), abs(vmax))
-    eps = Fraction(1e-9 * scale + 1e-12)
+    # float clauses: relative to the full-scale span (plus 8 ulp of the values' magnitude) - no absolute floor
+    eps = Fraction(_tol(vmax - vmin, max(abs(vmin), abs(vmax))))
     for i, (s, o) in enumerate(zip(xs, out)):
         S, O = Fraction(s), Fraction(o)
         if ot == "n":
@@ -587,16 +627,25 @@ def oracle(case, res):
                 break
             val = O
         if Vmin <= S <= Vmax:
-            if abs(val - S) > step / 2 * (1 + Fraction(1, 10 ** 9)) + eps:
+            if not abs(val - S) <= step / 2 * (1 + Fraction(1, 10 ** 9)) + eps:
                 v.append(("C18:ADC:half-step", f"in-range sample {i} ({s!r}) moved to {float(val)!r}: more than half a step {float(step / 2)!r}"))
                 break
         elif S < Vmin:
-            if abs(val - Vmin) > eps:
+            if not abs(val - Vmin) <= eps:
                 v.append(("C18:ADC:saturate-low", f"sample {i} ({s!r}) below V_min={vmin!r} -> {o!r}, not the lowest code"))
                 break
         else:
-            if abs(val - Vmax) > eps:
+            if not abs(val - Vmax) <= eps:
                 v.append(("C18:ADC:saturate-high", f"sample {i} ({s!r}) above V_max={vmax!r} -> {o!r}, not the highest code"))
+                break
+    for end, want_code, name in ((vmin, 0, "lowest"), (vmax, top, "highest")):
+        for i, s_ in enumerate(xs):
+            if s_ == end:
+                got = Fraction(out[i])
+                ref = Fraction(want_code) if ot == "n" else Fraction(end)
+                if not abs(got - ref) <= (0 if ot == "n" else eps):
+                    v.append(("C18:ADC:end-code", f"sample {i} equal to {'V_min' if want_code == 0 else 'V_max'}={end!r} -> {out[i]!r}, "
+                                                  f"not the {name} code/level"))
                 break
     if ot == "n" and not res["dtype"].startswith("int"):
         v.append(("C18:ADC:code-dtype", f"codes have dtype {res['dtype']}"))
@@ -641,6 +690,8 @@ def features(case, res):
         if case.get("directed"):
             f.append("adc:directed-" + str(case["directed"]))
         f.append("adc:dtype=" + case.get("dtype", "float64"))
+        if "scale" in spec:
+            f.append("adc:scale=%g" % spec["scale"])
         if case.get("noise") is not None:
             f.append("adc:separate-noise")
         if res["status"] == "ok" and res["vmin"] is not None:
